@@ -14,6 +14,15 @@
 #if defined(__SANITIZE_ADDRESS__)
 #define VA_ASAN 1
 #endif
+#if defined(__has_feature)
+#if __has_feature(memory_sanitizer)
+#include <sanitizer/msan_interface.h>
+#define VA_MSAN_POISON(p, n) __msan_poison((p), (n))
+#endif
+#endif
+#ifndef VA_MSAN_POISON
+#define VA_MSAN_POISON(p, n) ((void)0)
+#endif
 #ifdef VA_ASAN
 #include <sanitizer/asan_interface.h>
 #define VA_POISON(p, n) ASAN_POISON_MEMORY_REGION((p), (n))
@@ -97,6 +106,7 @@ static void* raw_alloc(size_t n) {
   if (tail) tail->next = h; else head = h;
   tail = h;
   if (n) memset(h + 1, 0xCD, n);
+  if (n) VA_MSAN_POISON(h + 1, n); /* deterministic content, but still "uninitialised" for MemorySanitizer */
   if (capn > n) VA_POISON((unsigned char*)(h + 1) + n, capn - n); /* the spare capacity is not the client's: a write into it is a heap overflow */
   va.live++;
   va.live_bytes += n;
